@@ -178,7 +178,7 @@ def run_case(case):
         obs["max_dev_" + name] = max(obs.get("max_dev_" + name, 0.0), val)
         if not val <= limit and sens is not None and np.isfinite(val):
             key, fn, which = sens
-            limit = limit + 20.0 * measured(key, fn)[which]
+            limit = limit + util.COND_FACTOR * measured(key, fn)[which]
             obs["judged_by_measured_conditioning"] = obs.get("judged_by_measured_conditioning", 0) + 1
         if not val <= limit:
             viols.append(util.viol(name, f"{name}: deviation {val:.3g} (tolerance {limit:.2g})", tags=tags))
